@@ -118,6 +118,7 @@ func compareFields(c *Check, rule, fk, where string, got, want map[string]string
 func runC17(w *World, c *Check) {
 	c.Rule("C17.layout", "header fields sit at the RFC 4121 §4.2.6 offsets with the RFC's widths and byte order, on the writing and on the reading side", 22)
 	c.Rule("C17.input", "the checksum covers payload ‖ header with the token's flags and sequence number, keyed by key value, key type and usage", 8)
+	c.Rule("C17.faithful", "MICToken.Verify and WrapToken.Verify never return (false, nil)", 4)
 	c.Rule("C17.verify", "Verify is true only for a whole-slice equality of the computed and the presented checksum", 4)
 	c.Rule("C17.reject", "decoders reject short input, wrong token id, wrong filler, wrong direction flag (both ways) and an EC larger than the remaining bytes", 11)
 	c.Rule("C17.consts", "key usages 22–25, flag bits 1/2/4, token ids; initiator tokens: usage 24/25, flags 0, EC = HMAC length", 12)
@@ -274,4 +275,5 @@ func runC17(w *World, c *Check) {
 			fa.M(`\(crypto/etype\.EType\.GetHMACBitLength\(crypto\.GetEtype\(key\.KeyType\)#0\) / 8\)`, got["EC"])
 		c.Decide(ok, "C17.consts", FuncKey(fn), "fields", w.Pos(fn.Pos()), "initiator Wrap token: flags 0, RRC 0, EC = GetHMACBitLength()/8 of the key's etype, the caller's payload", fmt.Sprintf("fields %v", got))
 	}
+	ruleFalseHasError(w, c, "C17.faithful", "gssapi.(*MICToken).Verify", "gssapi.(*WrapToken).Verify")
 }
